@@ -42,6 +42,11 @@ import (
 // time.Time.Sub on wall-clock instants, see hTimeSub.
 //verif:stub (time.Time).Sub => hTimeSub
 
+// Duration formatting is only used for the text of the "valid for too long" error (a digit loop per path).
+//verif:stub (time.Duration).String => hDurationString
+
+func hDurationString(d time.Duration) string { return "<duration>" }
+
 const hRaw = "<compact JWS of the presentation>"
 
 // ---------------------------------------------------------------------------------------------
@@ -162,14 +167,14 @@ func hMatch(pd pe.PresentationDefinition, vcs []vc.VerifiableCredential) ([]vc.V
 	vTag("match.err")
 	hS.matchErr = vBool()
 	if hS.matchErr {
-		return nil, nil, errors.Join(pe.ErrNoCredentials, errors.New("harness: constraints not matched"))
+		return nil, nil, pe.ErrNoCredentials
 	}
 	vTag("match.n")
 	n := vLen(0, vParam("matched", 2))
 	if n > 0 && len(vcs) == 0 {
 		// a descriptor without any candidate credential cannot be matched
 		hS.matchErr = true
-		return nil, nil, errors.Join(pe.ErrNoCredentials, errors.New("harness: constraints not matched"))
+		return nil, nil, pe.ErrNoCredentials
 	}
 	var out []vc.VerifiableCredential
 	var maps []pe.InputDescriptorMappingObject
@@ -189,8 +194,9 @@ func hMatch(pd pe.PresentationDefinition, vcs []vc.VerifiableCredential) ([]vc.V
 const hUnixToInternal = (1969*365 + 1969/4 - 1969/100 + 1969/400) * 86400
 
 // hWallTime builds the time.Time for (sec, nsec) since the Unix epoch in UTC without monotonic reading, exactly
-// what time.Unix(sec, nsec).UTC() yields for 0 <= nsec < 1e9 (written field by field because setLoc/stripMono
-// test `wall & hasMonotonic`, which the integer encoding cannot express for a symbolic wall word).
+// what time.Unix(sec, nsec).UTC() yields for 0 <= nsec < 1e9 - the form jwx / encoding/json produce for
+// NumericDate and RFC 3339 values (written field by field because setLoc/stripMono test `wall & hasMonotonic`,
+// which the engine's integer encoding cannot express for a symbolic wall word).
 func hWallTime(sec, nsec int) time.Time {
 	var t time.Time
 	vSetField(&t, "wall", uint64(nsec))
@@ -212,53 +218,35 @@ func vhNow() time.Time {
 	return hWallTime(sec, nsec)
 }
 
-// hTimeSub is time.Time.Sub (go1.23 source, line by line) specialised to instants without a monotonic clock
-// reading (everything decoded from a JWT/JSON, and the harness clock; asserted below). Same model as used for
-// C02: the real Sub calls u.Add(d) with a symbolic d, which rewrites the wall word with bit operations
-// (`wall&^nsecMask | nsec`, `wall&hasMonotonic`) that the engine's integer encoding cannot express, and the
-// 64-bit bit-vector encoding of the *1e9 and /1e9 in Sub is not decided by z3.
+// hTimeSub models time.Time.Sub for instants without a monotonic clock reading (everything decoded from a
+// JWT/JSON, and the harness clock; asserted below): the exact difference t-u in nanoseconds, saturated to
+// [minDuration, maxDuration]. That is what the real Sub computes (it forms d with wrap-around, returns d if
+// u.Add(d).Equal(t) and otherwise saturates in the direction of t.Before(u)); the model is validated against the
+// real Sub natively on boundary and random instants (see registry). Reason for the model: the real Sub calls
+// u.Add(d) with a symbolic d, which rewrites the wall word with bit operations (`wall&^nsecMask | nsec`,
+// `wall&hasMonotonic`) that the engine's integer encoding cannot express, and the 64-bit bit-vector encoding of
+// the *1e9 and /1e9 in Sub is not decided by z3. Precondition (asserted): |t.sec - u.sec| < 2^62.
 func hTimeSub(t, u time.Time) time.Duration {
 	const nsecMask = 1<<30 - 1
 	const minDuration, maxDuration = time.Duration(-1 << 63), time.Duration(1<<63 - 1)
 	tw, uw := vGetField(&t, "wall").(uint64), vGetField(&u, "wall").(uint64)
 	vAssert(tw < 1<<63 && uw < 1<<63, "H16a.time_model: instant with monotonic clock reading reached the Sub model")
 	ts, us := vGetField(&t, "ext").(int64), vGetField(&u, "ext").(int64) // sec()
-	tn, un := int32(tw&nsecMask), int32(uw&nsecMask)                       // nsec()
-	d := time.Duration(ts-us)*time.Second + time.Duration(tn-un)
-	// u.Add(d)
-	dsec := int64(d / 1e9)
-	nsec := un + int32(d%1e9)
-	if nsec >= 1e9 {
-		dsec++
-		nsec -= 1e9
-	} else if nsec < 0 {
-		dsec--
-		nsec += 1e9
-	}
-	// addSec(dsec)
-	var asec int64
-	sum := us + dsec
-	if (sum > us) == (dsec > 0) {
-		asec = sum
-	} else if dsec > 0 {
-		asec = 1<<63 - 1
-	} else {
-		asec = -(1<<63 - 1)
-	}
-	switch {
-	case asec == ts && nsec == tn: // u.Add(d).Equal(t)
-		return d
-	case ts < us || ts == us && tn < un: // t.Before(u)
-		return minDuration
-	default:
+	vAssert(ts > -(1<<61) && ts < 1<<61 && us > -(1<<61) && us < 1<<61, "H16a.time_model_range: instant outside the range of the Sub model")
+	tn, un := int64(tw&nsecMask), int64(uw&nsecMask) // nsec()
+	ds, dn := ts-us, tn-un                             // exact difference = ds*1e9 + dn, -1e9 < dn < 1e9
+	// maxDuration = 9223372036*1e9 + 854775807, minDuration = -(9223372036*1e9 + 854775808)
+	// ds*1e9+dn > maxDuration  <=>  ds-9223372036 =: hi > 1 || hi == 1 && dn > 854775807-1e9 || hi == 0 && dn > 854775807
+	// ds*1e9+dn < minDuration  <=>  ds+9223372036 =: lo < -1 || lo == -1 && dn < 1e9-854775808 || lo == 0 && dn < -854775808
+	hi, lo := ds-9223372036, ds+9223372036
+	if hi > 1 || (hi == 1 && dn > -145224193) || (hi == 0 && dn > 854775807) {
 		return maxDuration
 	}
+	if lo < -1 || (lo == -1 && dn < 145224192) || (lo == 0 && dn < -854775808) {
+		return minDuration
+	}
+	return time.Duration(ds*1000000000 + dn)
 }
-
-// hFracs: nanosecond parts for instants decoded from the presentation (concretised, see hWallTime): a JWT
-// NumericDate has whole seconds (jwx default precision); RFC 3339 values (credential expirationDate, or an
-// `exp` given as RFC 3339 string, which jwx tolerates) can carry a fraction.
-var hFracs = []int{0, 999999999, 1}
 
 type hInstant struct {
 	present   bool
@@ -266,6 +254,15 @@ type hInstant struct {
 	t         time.Time
 }
 
+// hFracs: nanosecond parts of instants decoded from the presentation. A JWT NumericDate has whole seconds (jwx
+// default precision); RFC 3339 values (a credential's expirationDate, or an `exp` given as RFC 3339 string, which
+// jwx tolerates) can carry a fraction. Concretised choice among boundary values (the first `fracs` of them)
+// because the engine's integer encoding cannot express time's `wall & hasMonotonic` tests on a symbolic wall word;
+// the seconds stay symbolic. The clock's nanoseconds are fully symbolic.
+var hFracs = []int{0, 999999999, 1}
+
+// hDrawInstant: an optional instant. Seconds are symbolic in +-2^40 around the Unix epoch (years -32873..36812,
+// well beyond the saturation range of time.Sub).
 func hDrawInstant(name string) hInstant {
 	vTag(name + ".present")
 	if !vBool() {
